@@ -1,4 +1,5 @@
 SPECIFICATION Spec
-CONSTANT Bug_ExtStatSwap = FALSE
+CONSTANTS
+  Bug_ExtStatSwap = FALSE
 INVARIANT EmitPre
 CHECK_DEADLOCK FALSE
